@@ -167,7 +167,7 @@ fn is_wide(a: usize) -> bool {
 }
 
 /// random surface over the alphabet; unless `amb`, made unambiguous: images do
-/// not overlap and wide characters do not touch image footprints
+/// not overlap and no visible wide character reaches into an image footprint
 pub fn random_surface(rnd: &mut Rng, h: usize, w: usize, amb: bool, nalpha: usize) -> Vec<Vec<usize>> {
     let mut surf = vec![vec![0usize; w]; h];
     let density = 1 + rnd.below(3);
@@ -205,14 +205,14 @@ pub fn random_surface(rnd: &mut Rng, h: usize, w: usize, amb: bool, nalpha: usiz
                     } else {
                         surf[row][col] = 0;
                     }
-                } else if cover[row][col] && is_wide(a) {
-                    surf[row][col] = 0;
                 }
+                // (a wide character under an image is in the domain: it is hidden like every cell under an image)
             }
         }
         for row in 0..h {
             for col in 0..w {
-                if is_wide(surf[row][col]) && (cover[row][col] || cover[row][col + 1] || img_dims(surf[row][col + 1]).is_some()) {
+                // ambiguous: a VISIBLE wide character whose right half is under an image or is an image cell
+                if is_wide(surf[row][col]) && !cover[row][col] && (cover[row][col + 1] || img_dims(surf[row][col + 1]).is_some()) {
                     surf[row][col] = 1;
                 }
             }
